@@ -6,3 +6,5 @@ import SmtpV.Props.C02
 #print axioms SmtpV.Props.C02.C02_resume
 #print axioms SmtpV.Props.C02.C02_resume_escapes
 #print axioms SmtpV.Props.C02.C02_wf_fresh
+#print axioms SmtpV.Props.C02.C02_wf_invariant
+#print axioms SmtpV.Props.C02.C02_resume_anywhere
